@@ -303,10 +303,12 @@ func (d *Decoder) convertedMap(ref reflect.Value, mapTyp reflect.Type) (reflect.
 	if cv, ok := d.mapConv[key]; ok {
 		return cv, true
 	}
-	cv := convertMapItem(mapTyp, raw.Interface())
 	if d.mapConv == nil {
 		d.mapConv = make(map[_mapConversion]reflect.Value)
 	}
+	// with the decoder's memo: the maps nested in this one are converted once
+	// per type as well, however many referenced maps hold them
+	cv := convertMapItemSeen(mapTyp, raw.Interface(), d.mapConv)
 	d.mapConv[key] = cv
 	return cv, true
 }
